@@ -5,6 +5,7 @@ Property theorems only; helper lemmas live in SevenZ/Lemmas.
 import SevenZ.Lemmas.Number
 import SevenZ.Lemmas.BoolVec
 import SevenZ.Lemmas.Utf16
+import SevenZ.Lemmas.FilesInfo
 namespace SevenZ.C17
 open SevenZ SevenZ.Impl
 
@@ -52,11 +53,57 @@ theorem utf16_roundtrip (cs : List Nat) (hs : ∀ c ∈ cs, IsScalar c)
     readUtf16 (writeUtf16 cs ++ tail) = some (cs, tail) :=
   SevenZ.utf16_roundtrip cs hs hlen tail
 
+
+/-- one file entry per slot, the reader's view: every key set, to a value or to None -/
+def withMtimes (files : List FileEntry) (slots : List (Slot Nat)) : List FileEntry :=
+  (files.zip slots).map (fun (f, s) => setTime .m f (normSlot s))
+
+/-- timestamps over the whole unsigned 64-bit range, undefined entries staying undefined:
+    the property loop of `FilesInfo._read`, given the block `_write_times` emits, continues
+    with exactly the written values (any number of files < 2^32, any definedness pattern) -/
+theorem times_vector_roundtrip (fuel n ne : Nat) (fi : FilesInfo) (slots : List (Slot Nat))
+    (hlen : slots.length = fi.files.length) (hn : slots.length < 2 ^ 32)
+    (hv : ∀ s ∈ slots, ∀ t, s = .val t → t < 2 ^ 64) (rest : Bytes) :
+    readFileProps (fuel + 1) n fi ne (timesBlock true 0x14 slots ++ rest) =
+      readFileProps fuel n { fi with files := withMtimes fi.files slots } ne rest :=
+  times_step fuel n ne fi slots hlen hn hv rest
+
+/-- attribute words, undefined entries staying undefined -/
+theorem attrs_vector_roundtrip (fuel n ne : Nat) (fi : FilesInfo) (slots : List (Slot Nat))
+    (hlen : slots.length = fi.files.length) (hnf : n = fi.files.length) (hn : slots.length < 2 ^ 32)
+    (hv : ∀ s ∈ slots, ∀ t, s = .val t → t < 2 ^ 32) (rest : Bytes) :
+    readFileProps (fuel + 1) n fi ne (attrsBlock true slots ++ rest) =
+      readFileProps fuel n
+        { fi with files := (fi.files.zip slots).map (fun (f, s) => { f with attributes := normSlot s }) } ne rest :=
+  attrs_step fuel n ne fi slots hlen hnf hn hv rest
+
+def isOk {ε α} : Except ε α → Bool
+  | .ok _ => true
+  | .error _ => false
+
+/-- nine files, one defined timestamp -/
+def nineOneDefined : List (Slot Nat) :=
+  [.undef, .undef, .undef, .val 123456789, .undef, .undef, .undef, .undef, .undef]
+
+/-- The size computation of the tree as pinned (`bits_to_bytes(num_defined)`, finding F1,
+    repaired by commit "fix: size of partially defined time/attribute vectors …") made the
+    statement false: the block written for nine files with one defined timestamp was not
+    parsed back.  Kept as the record of the repaired defect; the correspondence stream runs
+    the model with the repaired computation. -/
+theorem partial_vector_unrepaired_ce :
+    isOk (readFileProps 3 9 { files := List.replicate 9 {} } 0
+      (timesBlock false 0x14 nineOneDefined ++ [0x00])) = false ∧
+    isOk (readFileProps 3 9 { files := List.replicate 9 {} } 0
+      (timesBlock true 0x14 nineOneDefined ++ [0x00])) = true := by
+  decide +kernel
+
 /- non-vacuity: the hypotheses are met by concrete non-trivial values -/
 example : (14921046061426453453 : Nat) < 2 ^ 64 ∧
     writeNumber 14921046061426453453 = [0xFF, 0xCD, 0xAB, 0x90, 0x78, 0x56, 0x34, 0x12, 0xCF] := by decide
 example : writeNumber 0x1234 = [0x92, 0x34] ∧ readNumber [0x92, 0x34, 7] = some (0x1234, [7]) := by decide
 example : IsScalar 0x1F600 ∧ IsScalar 1 ∧ (([0x1F600, 1].flatMap unitsOf).length < maxLength) := by decide
 example : writeBools [true, false, true, true, false, true, false, false, true] true = [0, 0xB4, 0x80] := by decide
+
+example : nineOneDefined.length = (List.replicate 9 ({} : FileEntry)).length ∧ nineOneDefined.length < 2 ^ 32 := by decide
 
 end SevenZ.C17
